@@ -200,6 +200,8 @@ func cmdCheck(argv []string) int {
 			eng.effectAssumptions["frame analysis (noglobalwrites): memory reachable from a function's parameters is package-level state only if it was derived from a package-level variable in a caller and handed in through a parameter the inferred frame records (pointers parked in heap objects are not followed)"] = true
 			eng.effectAssumptions["frame analysis (noglobalwrites): functions of dependencies do not write through their arguments, except the listed writers (sort.*, slices.Sort*, sync.* other than mutexes, sync/atomic, container/*, bytes/strings builders, math/rand; append/copy/delete/clear)"] = true
 			eng.effectAssumptions["frame analysis (noglobalwrites): function values that are not function literals of the calling function are assumed not to write package-level state"] = true
+		case "threadowned":
+			eng.effectAssumptions["goroutine ownership ("+d.Prefix+"): the entry method is started once per object; a function literal that is not started with go runs on the goroutine that created it; accesses from other packages do not exist (the fields are unexported)"] = true
 		case "distinctinit":
 			eng.effectAssumptions["initialiser table ("+d.Prefix+"): the fields are written by the package initialiser only (the C16 frame check proves that no other function writes package-level state)"] = true
 		case "readonly":
